@@ -193,6 +193,8 @@ def concretise(text, rng, style=None):
                 sep = rng.choice([",", ", ", " , "])
             elif dlm == "TAB":
                 sep = rng.choice(["\t", "\t", " \t", "\t ", " \t ", "\t\t"])       # with or without padding blanks; doubled
+            elif style.get("notabs"):
+                sep = rng.choice([" ", "   ", "  "])
             else:
                 sep = rng.choice([" ", "   ", "\t", " \t "])
             lead = rng.choice(["", " ", "    "]) if dlm == "SPACE" else rng.choice(["", "", " "] + (["\t"] if dlm == "TAB" else []))
@@ -315,6 +317,7 @@ def project(las, text, names="std", null="std", concrete=None):
 
 
 _NAMES_BACK = {}
+_MCASE = "upper"
 
 
 def proj_items(sec, curves=False):
@@ -322,6 +325,8 @@ def proj_items(sec, curves=False):
     out = []
     for it in list.__iter__(sec):
         o = it.original_mnemonic
+        if _MCASE == "lower" and not str(it.descr).endswith(" curve"):
+            o = o.upper()           # (the header mnemonics of the generated texts are all upper case)
         if curves and not isinstance(it, CurveItem):
             out.append(["?notCurveItem:" + o, "?"])
             continue
@@ -349,6 +354,13 @@ def read_event(prop, inst, concrete, engines=("numpy",), extra_kw=None, names="s
     text = inst["text"]
     kw = {"null_policy": inst["opts"]["null_policy"], "ignore_header_errors": bool(inst["opts"]["ihe"])}
     kw.update(extra_kw or {})
+    if "mnemonic_case" not in kw:
+        # the case option must not matter for anything the reader families look at (steering items are found whatever their
+        # case mapping): chosen by the text itself, so that a rerun reads the same text the same way
+        import zlib
+        kw["mnemonic_case"] = ["upper", "lower", "preserve", "upper"][zlib.crc32(concrete.encode("utf-8")) % 4]
+    global _MCASE
+    _MCASE = kw["mnemonic_case"]
     ev = {"op": "read", "prop": prop, "text": text, "opts": inst["opts"], "exc": "", "excline": 0, "engines": len(engines),
           "bits_equal": True, "fastpath": []}
     results = []
